@@ -28,7 +28,6 @@ func (c *MJSpacerComponent) Render(w io.StringWriter) error {
 	paddingRight := c.GetAttributeWithDefault(c, constants.MJMLPaddingRight)
 	paddingBottom := c.GetAttributeWithDefault(c, constants.MJMLPaddingBottom)
 	paddingLeft := c.GetAttributeWithDefault(c, constants.MJMLPaddingLeft)
-	verticalAlign := c.GetAttributeWithDefault(c, constants.MJMLVerticalAlign)
 
 	// Create table row
 	if _, err := w.WriteString("<tr>"); err != nil {
@@ -62,11 +61,6 @@ func (c *MJSpacerComponent) Render(w io.StringWriter) error {
 	}
 	if paddingLeft != "" {
 		td.AddStyle(constants.CSSPaddingLeft, paddingLeft)
-	}
-
-	// Add vertical-align as attribute (not style) if specified
-	if verticalAlign != "" {
-		td.AddAttribute(constants.AttrVerticalAlign, verticalAlign)
 	}
 
 	// Render table cell opening tag
